@@ -116,8 +116,8 @@ def check_dropout_shapes(name, kw, case, viol):
     try:
         res, data = run_dropout(name, kw, case['shape'], case['channels'], case['seed'])
     except Exception as e:  # noqa
-        if isinstance(e, ValueError) and name in ('CoarseDropout', 'GridDropout') and min(case['shape']) == 1:
-            return          # hole / grid limits larger than a one-voxel extent: a documented rejection
+        if isinstance(e, ValueError) and name in ('CoarseDropout', 'GridDropout'):
+            return          # hole / grid limits that do not fit this volume: a documented rejection
         try:
             run_dropout(name, kw, [8, 8, 8], None, case['seed'])
         except Exception:  # noqa -- the configuration does not run at all: C08's question
